@@ -91,7 +91,8 @@ def plot_session(sess):
             with warnings.catch_warnings():
                 warnings.simplefilter('ignore')
                 ch = ampycloud.run(tracer.build_frame({'rows': rows}), prms=prms or None, geoloc='verif', ref_dt='2026-01-01')
-            stem = os.path.join(tmp, f'plot_{k}') if a['save'] else None
+            sname = f'plot_{k}' + a.get('stemsuffix', '')
+            stem = os.path.join(tmp, sname) if a['save'] else None
             fmts = a['fmts']
             rc0 = dict(mpl.rcParams)
             e = {'cls': a['cls'], 'upto': a['upto'], 'show': bool(a['show']), 'show_ceilos': bool(a['show_ceilos']), 'hasref': a['ref'] is not None,
@@ -108,8 +109,9 @@ def plot_session(sess):
                 e['exc'] = type(ex).__name__ + ': ' + str(ex)[:100]
             after = set(glob.glob(os.path.join(tmp, '*')))
             new = sorted(after - before)
-            e['newfiles'] = [os.path.basename(f).split('.', 1)[1] for f in new if stem and os.path.basename(f).startswith(f'plot_{k}.')]
-            e['otherfiles'] = len([f for f in new if not (stem and os.path.basename(f).startswith(f'plot_{k}.'))])
+            mine = [f for f in new if stem and os.path.basename(f).startswith(sname + '.') and '.' not in os.path.basename(f)[len(sname) + 1:]]
+            e['newfiles'] = [os.path.basename(f)[len(sname) + 1:] for f in mine]
+            e['otherfiles'] = len([f for f in new if f not in mine])
             e['chunk_after'] = chunk_digest(ch)
             e['rc_after'] = rc_digest()
             e['rc_changed'] = sum(1 for kk in rc0 if str(rc0[kk]) != str(mpl.rcParams[kk]))
